@@ -1,7 +1,7 @@
 SPECIFICATION Spec
 CONSTANTS
  NH = 3
- K = {1,2,3,4,5}
+ K = {1,2,3,4}
  V = {1,2}
  MaxOps = 5
  KeepHist = TRUE
